@@ -210,7 +210,7 @@ void ThreePointsNumericalDerivative::updateDerivatives(const ParameterList& para
     if (function2_)
       function2_->enableSecondOrderDerivatives(computeD2_);
     if (functionChanged)
-      function_->setParameters(parameters.createSubList(lastVar));
+      function_->setParameters(parameters);
   }
   else
   {
